@@ -1,6 +1,7 @@
 (** Property C01: allow/deny lists decide by first matching group, else the default action. *)
 From Coq Require Import List NArith Bool.
-From Seccomp Require Import Words Result Machine Policy Spec CompileProofs CoreTheorems.
+From Seccomp Require Import Words Result Machine Policy Spec CompileProofs CoreTheorems Codegen CodegenTemplates.
+From Gen Require Import GenCodegen.
 Import ListNotations.
 Open Scope N_scope.
 
@@ -42,3 +43,17 @@ Theorem C01_first_in_policy_order : forall ai ev gs g,
                    Forall (fun g' => group_matches ai ev g' = false) pre.
 Proof. exact first_group_spec. Qed.
 Print Assumptions C01_first_in_policy_order.
+
+(** ** The tie to the source at the level of the code generator itself.
+    [group_template] and [entry_template] (gen/GenCodegen.v) are SyscallGroup.assemble and SyscallWithConditions.Assemble
+    REGENERATED from filter.go on every run as builder templates. Their meaning is exactly the label program of the
+    model's [gen_group]: action label first, the entries in order, the jump over the action return, the return of the
+    group's action, the next-group label - for every validated entry list, return word and byte order. *)
+Theorem C01_source_group_is_the_model : forall le es w,
+  Forall entry_nondegenerate es ->
+  interp_group le cond_chain entry_template group_template es w = Some (gen_group le es w).
+Proof.
+  intros le es w H. change entry_template with expected_entry_template. change group_template with expected_group_template.
+  apply expected_group_is_gen_group; [|exact H]. apply chain_ok_sound. vm_compute. reflexivity.
+Qed.
+Print Assumptions C01_source_group_is_the_model.
